@@ -105,6 +105,16 @@ public class VOverrides {
     public static Value decpow(final Value a, final Value n) { return sv(dec(a).pow(((IntValue) n).val).toString()); }
     @TLAPlusOperator(identifier = "DecAbs", module = "VPrims", warn = false)
     public static Value decabs(final Value a) { return sv(dec(a).abs().toString()); }
+    @TLAPlusOperator(identifier = "DecMod", module = "VPrims", warn = false)
+    public static Value decmod(final Value a, final Value b) { return sv(dec(a).mod(dec(b)).toString()); }
+    @TLAPlusOperator(identifier = "DecToInt", module = "VPrims", warn = false)
+    public static Value dectoint(final Value a) { return IntValue.gen(dec(a).intValueExact()); }
+    @TLAPlusOperator(identifier = "DecToBytes", module = "VPrims", warn = false)
+    public static Value dectobytes(final Value a, final Value n) {
+        int w = ((IntValue) n).val; byte[] r = new byte[w]; byte[] b = dec(a).toByteArray();
+        for (int i = 0; i < w && i < b.length; i++) r[w - 1 - i] = b[b.length - 1 - i];
+        return tuple(r);
+    }
     @TLAPlusOperator(identifier = "StrCat", module = "VPrims", warn = false)
     public static Value strcat(final Value a, final Value b) { return sv(str(a) + str(b)); }
     @TLAPlusOperator(identifier = "SubStr", module = "VPrims", warn = false)
